@@ -142,7 +142,7 @@ func (b *vBlock) Sign(key PrivateKey) error {
 	e.lastSignHash = b.Hash()
 	if e.want("C07") {
 		// final block is signed only after the pre-block callback succeeded (C07.O3)
-		vAssert("C07.O3.sign", !e.d.isAntiMEVExtensionEnabled() || e.d.preBlockProcessed)
+		vAssert("C07.O3.sign", !e.amevOn() || e.d.preBlockProcessed)
 	}
 	if e.want("C13") {
 		vAssert("C13.nosign", !e.d.Context.WatchOnly())
@@ -185,7 +185,7 @@ func (b *vPreBlock) SetData(key PrivateKey) error {
 		vAssert("C13.nosetdata", !e.d.Context.WatchOnly())
 	}
 	if e.want("C07") {
-		vAssert("C07.O4.nosetdata", e.d.isAntiMEVExtensionEnabled())
+		vAssert("C07.O4.nosetdata", e.amevOn())
 	}
 	if vUF(kSetDataErr, uint64(b.hash())) != 0 {
 		return &vErr{}
@@ -320,6 +320,8 @@ type vEnv struct {
 	verifiedOK, verifiedPreOK     bool
 	verifiedHash, verifiedPreHash vhash
 	cached                        []*vPayload
+	poolLater                     []Transaction[vhash]
+	nGetVerified                  int
 	nprTs, nprNonce               uint64
 	nprTxs                        []vhash
 	nNPR                          int
@@ -337,6 +339,12 @@ func (e *vEnv) kf1() bool {
 }
 
 func (e *vEnv) want(p string) bool { return vWant(p) }
+
+// amevOn: the anti-MEV extension applies at the node's height. Computed by the harness from the
+// configured enabling height (the oracle must not ask the library's own predicate).
+func (e *vEnv) amevOn() bool {
+	return e.amevH >= 0 && uint32(e.amevH) <= e.d.BlockIndex
+}
 
 func (e *vEnv) Now() time.Time { return vTime(e.clock) }
 func (e *vEnv) Reset(h uint32, v byte, d time.Duration) {
@@ -418,7 +426,7 @@ func vNewEnv(n, my int, amevCfg, maxCfg bool) *vEnv {
 		WithNewBlockFromContext[vhash](func(c *Context[vhash]) Block[vhash] {
 			e.nNewBlock++
 			if e.want("C07") {
-				vAssert("C07.O3.newblock", !c.isAntiMEVExtensionEnabled() || c.preBlockProcessed)
+				vAssert("C07.O3.newblock", !e.amevOn() || c.preBlockProcessed)
 			}
 			if e.want("C15") && c.IsPrimary() {
 				// the primary's own block is built from the values it proposed
@@ -438,7 +446,13 @@ func vNewEnv(n, my int, amevCfg, maxCfg bool) *vEnv {
 			}
 			return nil
 		}),
-		WithGetVerified[vhash](func() []Transaction[vhash] { return e.pool }),
+		WithGetVerified[vhash](func() []Transaction[vhash] {
+			e.nGetVerified++
+			if e.poolLater != nil && e.nGetVerified > 1 {
+				return e.poolLater // the pool may change between two readings in one call
+			}
+			return e.pool
+		}),
 		WithNewConsensusPayload[vhash](func(c *Context[vhash], t MessageType, m any) ConsensusPayload[vhash] {
 			var p *vPayload
 			if r, ok := m.(*vRecovery); ok {
